@@ -181,8 +181,33 @@ def theorem_names(props_file):
 
 
 def proof_status(pid, props_file, workdir):
-    """Builds the development; returns dict(ok, obligations, discharged, failed_files, assumptions, detail)."""
-    ok_all, out = vlib.coq_make()
+    """Builds the development; returns dict(ok, obligations, discharged, failed_files, assumptions, detail).
+    props_file may be a list of files; results are merged."""
+    if isinstance(props_file, (list, tuple)):
+        res = None
+        for i, pf in enumerate(props_file):
+            r = proof_status1(pid + ("_%d" % i if i else ""), pf, workdir, make=(i == 0))
+            if res is None:
+                res = r
+            else:
+                res["ok"] = res["ok"] and r["ok"]
+                for k in ("obligations", "discharged"):
+                    res[k] += r[k]
+                for k in ("failed_files", "forbidden", "theorems"):
+                    res[k] = res[k] + r[k]
+                res["assumptions"].update(r["assumptions"])
+                res["closure"] = sorted(set(res["closure"]) | set(r["closure"]))
+                res["detail"] = (res["detail"] + "\n" + r["detail"]).strip()
+                res["closed"] = res.get("closed", 0) + r.get("closed", 0)
+        return res
+    return proof_status1(pid, props_file, workdir)
+
+
+def proof_status1(pid, props_file, workdir, make=True):
+    if make:
+        ok_all, out = vlib.coq_make()
+        proof_status1.last_out = out
+    out = getattr(proof_status1, "last_out", "")
     closure = dep_closure(props_file)
     failed = [f for f in vlib.coq_failed_files(out)]
     missing = [f for f in closure if not os.path.exists(os.path.join(vlib.COQ, f + "o"))]
@@ -312,7 +337,10 @@ def run_check(spec):
             if r["model_fail"]:
                 red.append({"what": "correspondence", "suite": suite.name, "count": len(r["model_fail"]),
                             "first": slim(r["model_fail"][0])})
-            failures.extend(r["monitor_fail"])
+            hyp = [x for x in r["monitor_fail"] if x["checker"].startswith("hyp")]
+            coverage["suites"][suite.name]["outside_hypothesis"] = len(hyp)
+            accept = spec.get("accept_failure", lambda rec: True)
+            failures.extend(x for x in r["monitor_fail"] if not x["checker"].startswith("hyp") and accept(x))
         if spec.get("extra"):
             ex = spec["extra"](tier, rng, workdir)
             failures.extend(ex.get("failures", []))
